@@ -8,6 +8,7 @@ SRC = "harness/c16_reuse.cpp"
 # __real_* resolve to the ASan interceptors, so use-after-reset still aborts.
 LD = ["-Wl,--wrap=malloc,--wrap=realloc,--wrap=free"]
 CXX = ["-fno-access-control"]
+SRC_HANDLERS = "harness/c16_handlers.cpp"   # leg 2: which ErrorHandler is in charge after attach/detach/finalize/re-attach histories
 
 
 def run(res, ctx):
@@ -20,7 +21,13 @@ def run(res, ctx):
         runner.run_harness(res, SRC, "asan", tier, args=args, deadline=420, timeout=1200, shards=16, extra_cxx=CXX, extra_ld=LD)
     else:
         runner.run_harness(res, SRC, "asan", tier, args=args, deadline=1500, timeout=2700, shards=16, extra_cxx=CXX, extra_ld=LD)
+    runner.run_harness(res, SRC_HANDLERS, "asan", tier, deadline=300, timeout=900, shards=3, label="handlers")
+    b = [res.strings.get("bound"), res.strings.pop("bound_handlers_leg", None)]
+    res.strings["bound"] = " || ".join(x for x in b if x)
 
 
 def replay(res, path, ctx):
+    if "harness=c16_handlers" in open(path).read():
+        runner.run_harness(res, SRC_HANDLERS, "asan", ctx["tier"], replay=path, timeout=300)
+        return
     runner.run_harness(res, SRC, "asan", ctx["tier"], replay=path, timeout=300, extra_cxx=CXX, extra_ld=LD)
